@@ -214,7 +214,10 @@ def gen_c14_staged(rng):
     return dict(edge='c14-staged', u0=u0, u1=u1, uo=LIN[other][0][0], x=rng.choice([1, 2.5, 40, 300]), y=rng.choice([0, 3, 0.5, 120, -7]),
                 what=rng.choice(['mod-other-unit', 'mod-other-unit', 'typed-other-unit', 'mod-no-unit', 'mod-twice', 'bool-false', 'str-empty',
                                  'other-dtype', 'other-dtype-str-that-reads-as-a-number', 'other-dtype-bool', 'other-dtype-float-for-str',
-                                 'other-dimension', 'constant', 'constant-typed']),
+                                 'other-dimension', 'constant', 'constant-typed',
+                                 'int-fraction', 'int-fraction-typed', 'int-fraction-negative', 'int-fraction-with-unit', 'int-declared-then-fraction',
+                                 'int-whole', 'int-bool', 'float-bool', 'float-word', 'bool-fraction', 'bool-word']),
+                frac=rng.choice([2.5, 0.75, 7.9, 0.5, 1.25, 1000.5]), whole=rng.choice([0, 7, -2, 12]),
                 grouped=rng.random() < 0.4, extra_node=rng.random() < 0.5, single=rng.random() < 0.4)
 
 
@@ -229,6 +232,15 @@ def run_c14_staged(c, ctx):
         A.append('%s  !constant' % ind)
     A += ['flag bool = true', 'label str = "abc"']
     B, exp, must_fail = [], {name: (x, u0), 'flag': (True, None), 'label': ('abc', None)}, False
+    frac, whole = c.get('frac', 2.5), c.get('whole', 7)
+    if what.startswith('int-'):
+        # an int node next to the float one: a literal with a fractional part is a value of another data type
+        if what == 'int-declared-then-fraction':
+            A.append('count int'); c = dict(c, single=True)              # a declaration has to receive its value in the same text
+        elif what == 'int-fraction-with-unit':
+            A.append('count int = 4 %s' % u0); exp['count'] = (4, u0)
+        else:
+            A.append('count int = 4'); exp['count'] = (4, None)
     if c['extra_node']:
         B.append('later int = 5')
         exp['later'] = (5, None)
@@ -254,6 +266,28 @@ def run_c14_staged(c, ctx):
         B.append('label float = 2.5'); must_fail = True
     elif what == 'other-dimension':
         B.append('%s = 3 %s' % (name, c['uo'])); must_fail = True
+    elif what == 'int-fraction':
+        B.append('count = %r' % frac); must_fail = True
+    elif what == 'int-fraction-typed':
+        B.append('count int = %r' % frac); must_fail = True
+    elif what == 'int-fraction-negative':
+        B += ['count = -3', 'count = %r' % -frac]; must_fail = True
+    elif what == 'int-fraction-with-unit':
+        B.append('count = %r %s' % (frac, u0)); must_fail = True
+    elif what == 'int-declared-then-fraction':
+        B.append('count = %r' % frac); must_fail = True
+    elif what == 'int-whole':
+        B.append('count = %d' % whole); exp['count'] = (int(whole), None)
+    elif what == 'int-bool':
+        B.append('count = true'); must_fail = True
+    elif what == 'float-bool':
+        B.append('%s = true' % name); must_fail = True
+    elif what == 'float-word':
+        B.append('%s = abc' % name); must_fail = True
+    elif what == 'bool-fraction':
+        B.append('flag = %r' % frac); must_fail = True
+    elif what == 'bool-word':
+        B.append('flag = abc'); must_fail = True
     elif what == 'constant':
         B.append('%s = %r %s' % (name, y, u1)); must_fail = True
     elif what == 'constant-typed':
@@ -277,6 +311,8 @@ def run_c14_staged(c, ctx):
                 o = d.get(k)
                 ov, ou = (o[0], o[1]) if isinstance(o, tuple) else (o, None)
                 same = (ov == ev and type(ov) == type(ev)) if isinstance(ev, (str, bool)) else (not isinstance(ov, (str, bool)) and ov is not None and close(ov, ev, 1e-9, 1e-12))
+                if isinstance(ev, int) and not isinstance(ev, bool) and eu is None and not (isinstance(ov, int) and not isinstance(ov, bool)):
+                    same = False                                   # an int node keeps the int data type
                 if k not in d or ou != eu or not same:
                     bad[k] = dict(observed=o, expected=(ev, eu))
             if bad or sorted(d) != sorted(exp):
@@ -307,6 +343,8 @@ def run_c14_staged(c, ctx):
             o = d.get(k)
             ov, ou = (o[0], o[1]) if isinstance(o, tuple) else (o, None)
             same = (ov == ev and type(ov) == type(ev)) if isinstance(ev, (str, bool)) else (not isinstance(ov, (str, bool)) and ov is not None and close(ov, ev, 1e-9, 1e-12))
+            if isinstance(ev, int) and not isinstance(ev, bool) and eu is None and not (isinstance(ov, int) and not isinstance(ov, bool)):
+                same = False
             if k not in d or ou != eu or not same:
                 bad[k] = dict(observed=o, expected=(ev, eu))
         if bad or sorted(names) != sorted(exp) or len(names) != len(set(names)):
